@@ -1127,6 +1127,11 @@ def run_wrongtype(ctx, marshal, message, n):
         if out is not None:
             mv = view_from_model(out[i])
             # body decoding errors belong to the codec model (C01/C05): once the header is through, compare the header part
+            if mv.get('err') == 'Exception':
+                # PyErr.other: the header holds a variant of a container type - outside the fragment of the header
+                # codec that Msg/HeaderCode.lean models (the general codec is C01/C02/C05's model)
+                ctx.stat('wrongtype:outside-fragment')
+                continue
             if mv != v and not (mv.get('ok') and not v['ok'] and kind in ('type', 'dup', 'trunc', 'order')
                                 and body_stage_error(message, raw, fds)):
                 ctx.disagree('parse-wrongtype', {'kind': 'raw', 'raw': hexs(raw), 'fds': fds, 'what': kind}, mv, v)
@@ -1254,7 +1259,8 @@ def replay_case(ctx, marshal, message, data):
         out = ctx.model([parse_line(raw, data['fds'])])
         v, pm = parse_real(message, raw, data['fds'])
         ctx.case('parse-wrongtype', sample=None)
-        if out is not None and view_from_model(out[0]) != v and not body_stage_error(message, raw, data['fds']):
+        if out is not None and view_from_model(out[0]).get('err') != 'Exception' and view_from_model(out[0]) != v \
+                and not body_stage_error(message, raw, data['fds']):
             ctx.disagree('parse-wrongtype', data, view_from_model(out[0]), v)
         return
     if kind in ('serial-sequence', 'real-limit'):
